@@ -237,6 +237,27 @@ def run(R):
             "raise_if_error raises the stored error with its stored traceback (qcore's reraise)",
             "raise_if_error raises the stored error with `raise`: the traceback is whatever the object accumulated the last time it propagated, so a second "
             "value() shows the frames of the first caller spliced in front of the task levels")
+    # prepare_for_reraise() records sys.exc_info(): it is only meaningful inside the except block of the exception it is applied to
+    aem = ro.accept_error_method()
+    for f_ in R.repo.all_functions():
+        for fn_ in [f_] + list(f_.nested.values()):
+            for c_ in q.calls(fn_.node):
+                if not (q.call_name(c_) or "").endswith("prepare_for_reraise") or not c_.args:
+                    continue
+                if fn_ is aem:
+                    continue        # the method that stamps an error for the first time is called from the handlers (C02.CAPTURE decides that)
+                hs_ = [a for a in q.ancestors(c_) if isinstance(a, ast.ExceptHandler)]
+                okp = False
+                if hs_ and isinstance(c_.args[0], ast.Name):
+                    h_ = hs_[0]
+                    nm = c_.args[0].id
+                    okp = nm == h_.name or any(isinstance(x, ast.Assign) and isinstance(x.value, ast.Name) and x.value.id == h_.name and any(q.src(t) == nm for t in x.targets)
+                                               for x in ast.walk(h_))
+                R.check(okp, "C18.GLUE", "%s:prepare:%d" % (fn_.qualname, len(hs_)), R.site(fn_, c_),
+                        "prepare_for_reraise() is applied to the exception being handled, inside its except block",
+                        "prepare_for_reraise(%s) runs outside the except block of that exception: it records whatever sys.exc_info() holds then (nothing, or "
+                        "another exception) as the error's type and traceback - the raising frames are lost, or the next task level throws TypeError / a "
+                        "different exception into its parent" % q.src(c_.args[0]))
     # creator chain
     tb = ro.AsyncTask.methods.get("traceback")
     R.need(tb is not None, "anchor vanished: AsyncTask.traceback")
@@ -393,6 +414,93 @@ def diag_purity(R, ro, allm, rule):
                     "%s can be evaluated on an uncomputed future: printing it (a debug dump, an error message) runs the computation - a pending batch is flushed by its own __str__" % q.src(c))
 
 
+def filter_slice_form(R, ft, fcfg, pfor, outer, pat, repl, lst, iv, len_aliases):
+    """The pattern is compared with a slice: end = i + len(pattern); all(p in line for p, line in zip(pattern, lst[i:end])).
+    Decided: a pattern is skipped without comparing only when fewer lines remain than it has (len(lst) < end); the comparison runs only
+    when enough remain; on a match the marker is emitted and the cursor jumps to end; otherwise the line is copied and the cursor
+    advances by one.  Returns False when the function is not written in this form."""
+    ends = [n for n in fcfg.nodes if n.kind == "stmt" and isinstance(n.ast, ast.Assign) and len(n.ast.targets) == 1 and isinstance(n.ast.targets[0], ast.Name)
+            and q.src(n.ast.value) in ("%s + len(%s)" % (iv, pat), "len(%s) + %s" % (pat, iv)) and any(n.ast is x for x in ast.walk(pfor))]
+    if len(ends) != 1:
+        return False
+    ev = ends[0].ast.targets[0].id
+    site = R.site(ft, pfor)
+
+    def is_match(nd):
+        if nd.kind != "test" or not (isinstance(nd.ast, ast.Call) and q.call_name(nd.ast) == "all" and len(nd.ast.args) == 1):
+            return None
+        g = nd.ast.args[0]
+        if not isinstance(g, (ast.GeneratorExp, ast.ListComp)) or len(g.generators) != 1 or g.generators[0].ifs:
+            return None
+        gen = g.generators[0]
+        ok = isinstance(gen.iter, ast.Call) and q.call_name(gen.iter) == "zip" and [q.src(a) for a in gen.iter.args] == [pat, "%s[%s:%s]" % (lst, iv, ev)] \
+            and isinstance(gen.target, ast.Tuple) and len(gen.target.elts) == 2 and isinstance(g.elt, ast.Compare) and isinstance(g.elt.ops[0], ast.In) \
+            and q.src(g.elt.left) == q.src(gen.target.elts[0]) and q.src(g.elt.comparators[0]) == q.src(gen.target.elts[1])
+        return "T" if ok else None
+    matches = [n for n in fcfg.nodes if is_match(n) is not None]
+    if len(matches) != 1:
+        return False
+    mt = matches[0]
+    phead = kit.one(fcfg.nodes_for(pfor), "pattern loop header")
+    starts = [e.dst for e in fcfg.out_edges(phead.id, N) if e.label == "iter"]
+
+    def too_few(nd):
+        # edge on which it is established that fewer than len(pattern) lines remain:  len(lst) < end
+        if nd.kind != "test":
+            return None
+        k, s, pos = q.atom_test(nd.ast)
+        if k == "lt" and s[0] in len_aliases and s[1] == ev:
+            return "T" if pos else "F"
+        return None
+
+    def enough(nd):
+        # edge on which at least len(pattern) lines remain:  not (len(lst) < end);  end < len(lst) also implies it
+        if nd.kind != "test":
+            return None
+        k, s, pos = q.atom_test(nd.ast)
+        if k == "lt" and s[0] in len_aliases and s[1] == ev:
+            return "F" if pos else "T"
+        if k == "lt" and s[0] == ev and s[1] in len_aliases:
+            return "T" if pos else "F"
+        return None
+    # the comparison runs only with enough lines (zip would silently compare a prefix otherwise)
+    p = kit.path_avoiding_guard(fcfg, [mt], enough, N, sources=starts)
+    R.check(p is None, "C18.FILTER", ft.qualname + ":complete", site, "a pattern is compared only when as many lines remain as it has",
+            "a pattern can be compared with fewer remaining lines than it has: zip() stops early and a partial run at the end of the text is collapsed",
+            fcfg.fmt_path(p) if p else None)
+    # a pattern is passed over without comparing only when too few lines remain (a complete run that ends with the last line is still a run)
+    p = fcfg.find_path(starts, [phead], N, cut_nodes=[mt],
+                       keep_edge=lambda e: not (too_few(fcfg.nodes[e.src]) is not None and e.label == too_few(fcfg.nodes[e.src])))
+    R.check(p is None, "C18.FILTER", ft.qualname + ":bounds", site, "a pattern is skipped without comparing only when fewer lines remain than it has",
+            "a pattern can be skipped although exactly as many lines remain as it has: a complete boilerplate run that ends with the last line of the "
+            "traceback is left uncollapsed", fcfg.fmt_path(p) if p else None)
+    # on a match: marker emitted, cursor := end
+    tstarts = [e.dst for e in fcfg.out_edges(mt.id, N) if e.label == "T"]
+    emits = [n for n, c in kit.call_sites(ft, lambda c: q.attr_call(c)[1] == "append" and repl in q.names_loaded(c))]
+    jumps = [n for n in fcfg.nodes if n.kind == "stmt" and isinstance(n.ast, ast.Assign) and q.src(n.ast.targets[0]) == iv and q.src(n.ast.value) == ev]
+    ohead = [n for n in fcfg.nodes if n.kind == "loop" and n.stmt is outer]
+    p1 = fcfg.find_path(tstarts, ohead, N, cut_nodes=emits)
+    p2 = fcfg.find_path(tstarts, ohead, N, cut_nodes=jumps)
+    R.check(p1 is None and p2 is None and emits and jumps, "C18.FILTER", ft.qualname + ":advance", site,
+            "a matched run emits its marker and moves the cursor past the run", "after a match the marker is not emitted or the cursor does not move past the run",
+            fcfg.fmt_path(p1 or p2) if (p1 or p2) else None)
+    # markers only on the match edge
+    p = kit.path_avoiding_guard(fcfg, emits, lambda nd: "T" if nd is mt else None, N)
+    R.check(p is None, "C18.FILTER", ft.qualname + ":marker", site, "a marker is emitted only for a complete matching run", "a marker can be emitted without a match",
+            fcfg.fmt_path(p) if p else None)
+    # otherwise the line is copied and the cursor advances by one
+    copies = [n for n, c in kit.call_sites(ft, lambda c: q.attr_call(c)[1] == "append" and q.src(c.args[0]) == "%s[%s]" % (lst, iv))]
+    by_one = [n for n in fcfg.nodes if n.kind == "stmt" and ((isinstance(n.ast, ast.AugAssign) and q.src(n.ast.target) == iv and q.src(n.ast.value) == "1")
+                                                             or (isinstance(n.ast, ast.Assign) and q.src(n.ast.targets[0]) == iv and q.src(n.ast.value) == "%s + 1" % iv))]
+    ok = bool(copies) and bool(by_one)
+    for cn in copies:
+        ok = ok and fcfg.find_path([e.dst for e in fcfg.out_edges(cn.id, N)], ohead, N, cut_nodes=by_one) is None
+    R.check(ok, "C18.FILTER", ft.qualname + ":copy", site, "a line that starts no complete run is copied and the cursor advances by one",
+            "a line that starts no run is not copied, or the cursor does not advance by one")
+    R.info("filter_traceback is written in the slice form; the counter-loop rules do not apply")
+    return True
+
+
 def filter_rules(R):
     repo = R.repo
     ft = repo.fn("debug.filter_traceback")
@@ -423,6 +531,8 @@ def filter_rules(R):
                 other = [x for x in sides if x != "len(%s)" % pat][0]
                 if other.isidentifier():
                     jv = other
+    if jv is None and filter_slice_form(R, ft, fcfg, pfor, outer, pat, repl, lst, iv, len_aliases):
+        return
     R.need(jv is not None, "idiom: the match counter compared with len(pattern) was not found")
     incs = [n for n in fcfg.nodes if n.kind == "stmt" and isinstance(n.ast, ast.AugAssign) and q.src(n.ast.target) == jv and isinstance(n.ast.op, ast.Add) and q.src(n.ast.value) == "1"
             and any(n.ast is x for x in ast.walk(pfor))]
